@@ -17,7 +17,7 @@ import (
 
 func init() {
 	register(&Property{ID: "C19", Gen: genC19, Exec: func(t *testing.T, p *Plan) *Outcome {
-		return execSeq(t, p, seqHooks{prop: "C19", model: true, commit: c19Commit, final: c19Final})
+		return execSeq(t, p, seqHooks{prop: "C19", model: true, commit: c19Commit, final: c19Final, after: c19After})
 	}})
 }
 
@@ -156,6 +156,23 @@ func c19Commit(e *Env, c *CommitRec) {
 	}
 }
 
+// c19After: a direct expiry pass that returned success must not leave behind what was expired when it
+// started (a pass that removes nothing makes no commit, so c19Commit alone would never look at it).
+func c19After(e *Env, st *model.State, op *Op, c *CallRec, before, after *lungo.Catalog) {
+	if op.K != "e.expire" || c.Err != nil {
+		return
+	}
+	ref := time.Now().Add(e.sim.WallOffset()).Add(-(c.RetAt - c.InvAt))
+	// (the model's state: its TTL definitions are what the client created, whatever the catalog says)
+	must, _ := st.Expired(ref, ttlTol)
+	for ns, docs := range must {
+		if len(docs) > 0 {
+			e.violate(violation("C19", "expired-not-removed", "direct", fmt.Sprintf("Transaction.Expire at %s left %s in %s although a TTL index of the collection makes it expired", ref.UTC().Format(time.RFC3339Nano), docStr(docs[0]), ns)))
+			return
+		}
+	}
+}
+
 // c19Final: give the loop two more intervals, then nothing that was clearly expired before may be left.
 func c19Final(e *Env, st *model.State) {
 	interval := time.Duration(e.plan.Cfg.ExpireMs) * time.Millisecond
@@ -165,8 +182,11 @@ func c19Final(e *Env, st *model.State) {
 	ref := time.Now().Add(e.sim.WallOffset())
 	time.Sleep(2*interval + time.Millisecond)
 	e.syncModel(st, -1)
-	cur := stateFromCatalog(e.engine.Catalog())
-	must, _ := cur.Expired(ref, ttlTol)
+	if d := compareState(st, e.engine.Catalog()); d != "" {
+		// (a pass still in flight or a disagreement another check owns: judge what the database holds)
+		st = stateFromCatalog(e.engine.Catalog())
+	}
+	must, _ := st.Expired(ref, ttlTol)
 	for ns, docs := range must {
 		if len(docs) > 0 {
 			e.violate(violation("C19", "expired-not-removed", "loop", fmt.Sprintf("two expiry intervals later %s still holds %s, expired since before", ns, docStr(docs[0]))))
